@@ -399,6 +399,32 @@ def rule_r4(prog, res) -> None:
         res.ok("C11.R4", res.site(ls), f"{lead} leading binning columns written, {drop} dropped on load")
     else:
         res.violation("C11.R4", ls, ls.node, f".smp rows start with {lead} binning columns but load_samples drops {drop}", key_extra="smp-leading-columns")
+    # the text written for a number is computed from that number on every path (a literal can stand for NaN only:
+    # it is the one value that has no sign or magnitude to preserve)
+    fmt = prog.func("format_float_fixed_width")
+    res.touch(fmt)
+    vparam = fmt.param_names()[0]
+    fpaths = [p for p in symx.explore(prog, fmt, inline=symx.inline_private_helpers(prog)) if p.outcome == "return"]
+    if not fpaths:
+        raise AnalysisError("C11.R4: format_float_fixed_width has no returning path")
+    lost = None
+    for p in fpaths:
+        if p.value is not None and symx.mentions(p.value, lambda y: isinstance(y, ast.Name) and y.id == vparam):
+            continue
+        only_nan = any(pol and isinstance(t, ast.Call) and (dotted(t.func) or "").split(".")[-1] == "isnan" for t, pol in p.literals())
+        if not only_nan:
+            lost = p
+    if lost is None:
+        res.ok("C11.R4", res.site(fmt), f"all {len(fpaths)} returning path(s) format the value itself (a literal is returned for NaN at most)")
+    else:
+        res.violation(
+            "C11.R4",
+            fmt,
+            lost.node or fmt.node,
+            f"format_float_fixed_width returns `{unparse(lost.value)[:50]}`, which does not depend on the value, on a path that is not restricted to NaN (when {lost.cond_text()[:80]}): "
+            "different values (e.g. -inf and +inf) are written as the same text and read back as one of them",
+            key_extra="format-literal-for-values",
+        )
     # closed side: create_columns(closed) -> first character -> load_header
     ifs = [x for x in walk_no_nested(cc.node) if isinstance(x, ast.If)]
     dec = [x for x in walk_no_nested(lh.node) if isinstance(x, ast.IfExp)]
